@@ -7,6 +7,7 @@ from ..flow import AbsInt
 from ..rules import decide_states
 
 ID = "C17"
+ANCHORS = 'match.extract_matching_loci,match._extract_and_filter_chrom'.split(",")
 MIN_INSTANCES = 12
 EXPLANATION = (
     "R-COVER: in the nearest-bin spill search of extract_matching_loci both arms (bin i+offset, bin i-offset) are analysed in the "
